@@ -294,14 +294,72 @@ func c03Prepare(c *c03Case, id int) *Prepared {
 	app.Finish()
 	p := NewProc(id)
 	p.Stream = c.Stream
+	var inst *Instance
 	body := func() error {
 		if c.Prelude {
 			runPrelude()
 		}
-		inst := Build(app, p)
+		inst = Build(app, p)
 		return inst.Cli.Run(c.Argv)
 	}
-	return &Prepared{Proc: p, Body: body, Finish: func(st *Stats) *Violation { return c03Verdict(c, p, st) }}
+	return &Prepared{Proc: p, Body: body, Finish: func(st *Stats) *Violation {
+		if v := c03Verdict(c, p, st); v != nil {
+			return v
+		}
+		return c03Again(c, p, inst, st)
+	}}
+}
+
+// c03Outcome names the documented outcome a run ended in ("" = none of them, or a budget).
+func c03Outcome(p *Proc) string {
+	switch p.End {
+	case EndPanicked:
+		if err, ok := p.PanicVal.(error); ok {
+			if text, bad := safeErrorText(err); !bad && parseErrRe.MatchString(text) {
+				return "spec error: " + text
+			}
+		}
+	case EndReturned:
+		if p.Err == nil {
+			return "returned nil"
+		}
+		return "usage error"
+	}
+	return ""
+}
+
+// c03Again: history on one application object. A caller that recovers the spec error (or simply loops) and calls
+// Run again with the same command line gets the same documented outcome again - not a crash on half-initialised state.
+// (Only for applications whose declarations sit on the root: a sub-command's initializer declares them anew.)
+func c03Again(c *c03Case, p *Proc, inst *Instance, st *Stats) *Violation {
+	first := c03Outcome(p)
+	if c.OnSub || inst == nil || first == "" {
+		return nil
+	}
+	if !strings.HasPrefix(first, "spec error") && fnv64(c.Spec)%4 != 0 {
+		return nil
+	}
+	st.Count("reach.same_application_object_run_again")
+	p2 := NewProc(p.ID + 50)
+	p2.Stream = c.Stream
+	inst.Proc = p2
+	RunProc(p2, func() error { return inst.Cli.Run(c.Argv) })
+	second := c03Outcome(p2)
+	if p2.End == EndBudget && p2.Budget == "steps" {
+		return nil // the first run stayed below the step budget by a hair: nothing to conclude
+	}
+	// Which documented outcome the second Run ends in is not this property's business, except that a spec that did not
+	// compile still does not: the library forgets that a variable was satisfied by its environment value once the command
+	// line has set it (fsm.fillContainers clears ValueSetFromEnv), so a command line accepted at first can be a usage
+	// error the second time - an outcome C03 allows.
+	if second == "" || strings.HasPrefix(first, "spec error") && second != first {
+		return &Violation{Clause: "run-again", Detail: fmt.Sprintf("the first Run ended in a documented outcome (%s); Run called again on the same application object with the same command line: %s", clip(first, 200), describeEnd(p2)),
+			Expected: "a documented outcome again (the same spec error when the spec does not compile)", Observed: map[string]interface{}{"first": describeEnd(p), "second": describeEnd(p2)}}
+	}
+	if second != first {
+		st.Count("reach.second_run_of_the_same_object_ends_in_another_documented_outcome")
+	}
+	return nil
 }
 
 func c03Verdict(c *c03Case, p *Proc, st *Stats) *Violation {
